@@ -42,14 +42,41 @@ def neighbourhood_cases(seed, tier, tag):
                         tb = [LOOPED, LOOPED] if vl else [rng.choice([CORE, FV, FG]), rng.choice([CORE, FV, FG])]
                         g = gen.raster(nr, nc, conn, lr + tb, dy=dy, dx=dx, sc=rng.choice([0, 0, -3, 7]))
                         k += 1
-                        yield dict(kind="grid", id="%s-r%d" % (tag, k), grid=g, queries=_queries(rng, nr * nc, True, 2 * nr * nc))
+                        c = dict(kind="grid", id="%s-r%d" % (tag, k), grid=g, queries=_queries(rng, nr * nc, True, 2 * nr * nc))
+                        if rng.random() < 0.5:
+                            # a second cache-less grid of the same type, other shape / looping, queried in
+                            # between at the same node indices
+                            nr2, nc2 = rng.randint(2, top), rng.randint(2, top)
+                            lr2 = [LOOPED, LOOPED] if rng.random() < 0.5 else [CORE, FV]
+                            tb2 = [LOOPED, LOOPED] if rng.random() < 0.5 else [FG, CORE]
+                            c["grid2"] = gen.raster(nr2, nc2, conn, lr2 + tb2, dy=rng.choice([1, 2]), dx=rng.choice([1, 3]))
+                            n2 = nr2 * nc2
+                            mixed = []
+                            for q in c["queries"]:
+                                mixed.append(q)
+                                if q[2] < n2 and rng.random() < 0.7:
+                                    mixed.append([rng.choice(["all", "indices", "neighbors", "rc_indices"]), 2, q[2]])
+                                    if rng.random() < 0.5:
+                                        mixed.append([q[0], 1, q[2]])
+                            c["queries"] = mixed
+                        yield c
     for n in range(2, 7):
         for loop in (0, 1):
             for dx in (1, 3):
                 bs = [LOOPED, LOOPED] if loop else [rng.choice([CORE, FV, FG]), rng.choice([CORE, FV, FG])]
                 g = gen.profile(n, bs, dx=dx, sc=rng.choice([0, 5]))
                 k += 1
-                yield dict(kind="grid", id="%s-p%d" % (tag, k), grid=g, queries=_queries(rng, n, False, 3 * n))
+                c = dict(kind="grid", id="%s-p%d" % (tag, k), grid=g, queries=_queries(rng, n, False, 3 * n))
+                n2 = rng.randint(2, 7)
+                c["grid2"] = gen.profile(n2, [CORE, CORE] if loop else [LOOPED, LOOPED], dx=2)
+                mixed = []
+                for q in c["queries"]:
+                    mixed.append(q)
+                    if q[2] < n2 and rng.random() < 0.7:
+                        mixed.append([rng.choice(["all", "indices", "neighbors"]), 2, q[2]])
+                        mixed.append([q[0], 1, q[2]])
+                c["queries"] = mixed
+                yield c
 
 
 def status_cases(seed, tier, tag):
